@@ -91,6 +91,77 @@ def internal_cycle_free(spec):
     return rank == cols
 
 
+def loopless_exact_ranges(spec, vstar, fraction, want):
+    """Exact loopless ranges by exhaustive enumeration of the sign patterns of the internal reactions (certified LPs)."""
+    import itertools
+    import c17
+    internal = c17.internal_patterns(spec)
+    if len(internal) > 5:
+        return None
+    imids = sorted({m for r in internal for m in r["st"]})
+    pats = list(itertools.product((-1, 0, 1), repeat=len(internal)))
+    cyc = lpcert.certify([c17.has_cycle_lp(internal, imids, p) for p in pats])
+    acyclic = [p for p, c in zip(pats, cyc) if c["status"] == "optimal" and c["value"] == 0]
+
+    def leq(p, q):
+        return all(a == 0 or a == b for a, b in zip(p, q))
+    maximal = [p for p in acyclic if not any(p != q and leq(p, q) for q in acyclic)]
+    (lp, rids, mids, sign) = fbagen.net_lp(spec)
+    n, vb, rows, c = lp
+    cobj = [F(spec["obj"].get(r, "0")) for r in rids]
+    t = F(fraction) * vstar
+    rows = rows + [(cobj, t, None) if spec["dir"] == "max" else (cobj, None, t)]
+    idx = {r: j for j, r in enumerate(rids)}
+    lps, keys = [], []
+    for p in maximal:
+        vb2 = list(vb)
+        for r, sg in zip(internal, p):
+            lo, hi = vb2[idx[r["id"]]]
+            if sg > 0:
+                lo = max(lo, F(0))
+            elif sg < 0:
+                hi = min(hi, F(0))
+            else:
+                lo, hi = max(lo, F(0)), min(hi, F(0))
+            vb2[idx[r["id"]]] = (lo, hi)
+        for rid in want:
+            e = [F(0)] * n
+            e[idx[rid]] = F(1)
+            lps.append((n, vb2, rows, e))
+            keys.append((rid, "max"))
+            lps.append((n, vb2, rows, [-x for x in e]))
+            keys.append((rid, "min"))
+    out = {rid: [None, None] for rid in want}
+    for (rid, what), cert in zip(keys, lpcert.certify(lps)):
+        if cert["status"] != "optimal":
+            continue
+        if what == "max":
+            out[rid][1] = cert["value"] if out[rid][1] is None else max(out[rid][1], cert["value"])
+        else:
+            v = -cert["value"]
+            out[rid][0] = v if out[rid][0] is None else min(out[rid][0], v)
+    return out
+
+
+def objective_in_cycle(spec):
+    """Exact structural test: does a reaction with an objective coefficient take part in a cycle of the internal stoichiometry?"""
+    import c17
+    internal = c17.internal_patterns(spec)
+    imids = sorted({m for r in internal for m in r["st"]})
+    lps = []
+    for j, r in enumerate(internal):
+        if F(spec["obj"].get(r["id"], "0")) != 0:
+            rows = [([F(x["st"].get(m, "0")) for x in internal], F(0), F(0)) for m in imids]
+            e = [F(0)] * len(internal)
+            e[j] = F(1)
+            lps.append((len(internal), [(F(-1), F(1))] * len(internal), rows, e))
+    return any(c["status"] == "optimal" and c["value"] > 0 for c in lpcert.certify(lps)) if lps else False
+
+
+KNOWN_OBJ_CYCLE = []  # instances not judged for exactness: the objective rides on an internal cycle (known finding)
+KNOWN_UNDER = []      # under-reports of the heuristic observed in this run (known finding C05/loopless-fva-under-reports)
+
+
 def prepare_cases(cases):
     """Certify, in three batched calls to the Lean checker, what every case needs.  Sets case["_skip"] or case["_exact"]."""
     nets = [fbagen.net_lp(c["spec"]) for c in cases]
@@ -191,6 +262,19 @@ def check_case(case):
                     fails.append(f"loopless range [{a}, {b}] of {rid} is not inside the plain range [{res.at[rid, 'minimum']}, {res.at[rid, 'maximum']}]")
                 if acyclic and (not close(a, res.at[rid, "minimum"], 1e-5) or not close(b, res.at[rid, "maximum"], 1e-5)):
                     fails.append(f"network has no internal cycle but the loopless range [{a}, {b}] of {rid} differs from the plain range")
+            # Exactness of the loopless ranges is NOT judged on generated inputs: the pinned CycleFreeFlux heuristic deviates from the
+            # exact thermodynamic ranges (both ways) on ~28 % of even the simplest cyclic networks (known finding, DESIGN.md).  The exact
+            # enumeration below runs only when the recorded witness is replayed.
+            exact_ll = loopless_exact_ranges(spec, case["_vstar"], fraction, want) if case.get("judge_exact") else None
+            if exact_ll is not None:
+                for rid in want:
+                    lo, hi = exact_ll[rid]
+                    if lo is None or hi is None:
+                        continue
+                    a, b = ll.at[rid, "minimum"], ll.at[rid, "maximum"]
+                    tol = 1e-5 * (1 + abs(float(lo)) + abs(float(hi)))
+                    if a < float(lo) - tol or b > float(hi) + tol or a > float(lo) + tol or b < float(hi) - tol:
+                        KNOWN_UNDER.append({"case": public(case), "reaction": rid, "reported": [a, b], "true": [float(lo), float(hi)]})
     return fails, "ran"
 
 
@@ -205,7 +289,7 @@ def gen_case(rng):
     return {"spec": spec, "fraction": rng.choice(["1", "1", "1/2", "9/10", "0", "1/4"]),
             "pfba_factor": rng.choice([None, None, None, "1", "11/10", "2"]),
             "reactions": rng.sample(rids, k) if rng.random() < 0.6 else rids, "as_objects": rng.random() < 0.5,
-            "loopless": rng.random() < 0.25}
+            "loopless": rng.random() < 0.3}
 
 
 def run(ctx):
@@ -249,6 +333,18 @@ def run(ctx):
                 samples.append(public(case))
             if fails:
                 ctx.violations.append({"engine": "FVA vs certified exact ranges", "case": public(case), "failures": fails[:6]})
+    for kf in common.known_for("C05"):
+        w = kf.get("witness") or {}
+        if "case" in w:
+            before = len(KNOWN_UNDER)
+            try:
+                f2, _ = check_case(dict(w["case"]))
+            except Exception as e:
+                f2 = [str(e)]
+            if len(KNOWN_UNDER) > before or f2:
+                ctx.known_hits.append(f"{kf['signature']}: {kf['description'][:160]}")
+            else:
+                ctx.notes.append(f"known finding {kf['signature']} no longer reproduces")
     ctx.coverage.update({
         "evaluations": ran,
         "distinct_nontrivial": len(distinct),
